@@ -214,7 +214,7 @@ package keeper
 
 // the collecting closure: after step k, keys = the first k keys and values = the unlocks of the first k entries, in order
 //@ func (Keeper).DequeueMatureUnlocks$1
-//@ property C15 C06
+//@ property C15 C06 C11 C19
 //@ requires step: 0 <= walki && key == walkkey(walki) && value == walkval(walki)
 //@ requires keys: len(*keys) == walki && forall(j, 0, walki, (*keys)[j] == walkkey(j))
 //@ requires offs: offsinv(walki)
